@@ -1271,6 +1271,15 @@ class FnCtx:
             r = int_range(t[3])
             if inner[0] == "i" and r and inner[1] >= r[0] and inner[2] <= r[1]:
                 return self._lin(t[2], at, depth + 1)
+        if tag == "call" and isinstance(t[1], str) and t[1].endswith("::len") and len(t[2]) == 1:
+            # the length of a fixed-size array (borrowed as a slice) is a constant
+            x_ = t[2][0]
+            while x_[0] in ("ref", "deref") or (x_[0] == "cast" and x_[1] == "PointerCoercion"):
+                x_ = x_[2] if x_[0] in ("ref", "cast") else x_[1]
+            ty_ = self.ft.tyof(x_) or ""
+            m_ = re.match(r"^\[.*; (\d+)\]$", ty_.lstrip("&").strip())
+            if m_:
+                return ({}, int(m_.group(1)))
         if tag == "call" and isinstance(t[1], str) and t[2] and t[1].split("::")[-1] in ("expect", "unwrap") and "option::Option" in t[1]:
             # checked_op(a, b).expect(..) is a op b wherever it has a value at all (its panic is an obligation of its own)
             inner = t[2][0]
@@ -2538,8 +2547,19 @@ class FnCtx:
 
     # ------------------------------------------------------------------ vectors built by pushes
     def trip_count(self, lp):
-        """interval of the number of iterations of a loop driven by Iterator::next"""
+        """interval of the number of iterations of a loop driven by Iterator::next (or a hand-written +1 counter)"""
         if lp.item is None:
+            return (0, MAXLEN)
+        if getattr(lp, "counter", False):
+            src = lp.source
+            if src is not None and src[0] == "agg" and len(src[3]) == 2:
+                lo, hi = self.av(src[3][0], None), self.av(src[3][1], None)
+                lh = self.linear(src[3][1], None)
+                const_bound = lh is not None and not lh[0]
+                if const_bound:
+                    hi = I(lh[1], lh[1])              # e.g. the length of a fixed-size array
+                if lo[0] == "i" and hi[0] == "i" and (const_bound or self.invariant(src[3][1], lp)):
+                    return (max(0, hi[1] - lo[2]), max(0, hi[2] - lo[1]))
             return (0, MAXLEN)
         ad, base = self.iter_chain(lp.item[2])
         if ad is None:
@@ -2597,8 +2617,9 @@ class FnCtx:
             nlo, nhi = 1, 1
             for lp in self._loops:
                 if c.block in lp.body and cb not in lp.body:
-                    tl, th = self.trip_count(lp) if lp.next else (0, MAXLEN)
-                    ev = every_iteration(ft, lp, c.block) if lp.next and c.block in lp.own else False
+                    cnt_ = lp.next or getattr(lp, "counter", False)
+                    tl, th = self.trip_count(lp) if cnt_ else (0, MAXLEN)
+                    ev = every_iteration(ft, lp, c.block) if cnt_ and c.block in lp.own else False
                     # an early exit of the loop (break / return) lowers the count but never raises it
                     exits = [(x, y) for x, y in lp.exits if x != lp.item_switch and ft.blocks[y]["term"]["k"] != "unreachable"]
                     leaves_fn = all(not ft.cfg.can_reach(y, lp.head) and self._exit_leaves(y, cb) for x, y in exits)
